@@ -148,6 +148,7 @@ def main(argv=None):
     t_start = time.time()
     pid = args.prop
 
+    os.environ['VERIF_TIER'] = args.tier
     try:
         setup_paths()
         plan = importlib.import_module('props.' + pid)
@@ -171,6 +172,7 @@ def main(argv=None):
         print("CHECKER-ERROR property=%s modules with _debug != 0: %s" % (pid, dbg))
         return 3
 
+    os.environ['VERIF_TIER'] = args.tier
     thorough = args.tier == 'thorough'
     rlimit = 240000000 if thorough else 40000000
     timeout_ms = 600000 if thorough else 120000
@@ -267,7 +269,7 @@ def main(argv=None):
             path_queries += c['paths']
             if c['status'] == 'proved':
                 discharged += 1
-                by_backend['z3' if c['solver_s'] > 0 else 'syntactic'] += 1
+                by_backend['cvc5' if c.get('cvc5_paths') else ('z3' if c['solver_s'] > 0 else 'syntactic')] += 1
                 if len(samples) < 6 and c['max_size'] > 0:
                     samples.append({'obligation': cname, 'unit': name, 'paths': c['paths'], 'backend': 'z3',
                                     'result': 'unsat on every path', 'solver_s': round(c['solver_s'], 4),
